@@ -36,6 +36,7 @@ Ltac peq :=
     | |- @eq arg (APO _ _) (APO _ _) => f_equal; peq
     | |- @eq ptr (PPost _ _) (PPost _ _) => f_equal; peq
     | |- @eq eff (Copy _ _ _) (Copy _ _ _) => f_equal; peq
+    | |- @eq eff (CopyAt _ _ _ _) (CopyAt _ _ _ _) => f_equal; peq
     | |- @eq eff (Incref _) (Incref _) => f_equal; peq
     | |- @eq eff (Decref _) (Decref _) => f_equal; peq
     | |- @eq eff (Move _) (Move _) => f_equal; peq
